@@ -302,7 +302,7 @@ def check_levels(case, acc):
     report(case, acc, problems, nontrivial=len(perm) > 2)
 
 
-POOL = ["f", "0 + f", "f + g", "f:g", "0 + f:g", "f*g", "f + f:g", "x + f:x", "0 + f:x", "f*x", "f:g + x", "g + f:g", "f*g*x", "(f|h)", "(0 + f|h)", "(x + f|h)", "f + (g|h)"]
+POOL = ["f*g - f:g", "f + f:g - f", "f", "0 + f", "f + g", "f:g", "0 + f:g", "f*g", "f + f:g", "x + f:x", "0 + f:x", "f*x", "f:g + x", "g + f:g", "f*g*x", "(f|h)", "(0 + f|h)", "(x + f|h)", "f + (g|h)"]
 CODINGS_F = ["f", "C(f)", "T(f, 'fb')", "S(f)", "S(f, 'fa')", "C(f, Sum)", "C(f, Treatment('fc'))"]
 CODINGS_G = ["g", "C(g)", "T(g, 'g2')", "S(g)", "S(g, 'g1')", "C(g, Sum)", "C(g, Treatment('g2'))"]
 _DF = None
